@@ -488,7 +488,9 @@ theorem Acct_step (cfg : Cfg) (hpos : cfg.maxConnsPerHost > 0) (s : St) (op : Op
     · exact h
   | removeIdle c =>
     simp only [step]; split; exact h
-    exact Acct_removeIdleLocked s c h
+    split
+    · exact Acct_removeIdleLocked s c h
+    · exact h
   | idleTimeout c =>
     simp only [step]; split; exact h
     exact Acct_closeConn cfg hpos _ c (by simpa using hnd) (by simpa using hcr) (Acct_removeIdleLocked s c h)
